@@ -173,6 +173,9 @@ def generate(seed, tier):
                 fault_sets.append([damage.gen_fault(rng, n, fields, kinds=['shorten_record'])])
             for _ in range(6):
                 fault_sets.append([damage.gen_fault(rng, n, fields, kinds=['value_damage'])])
+        if any(f[2] in ('pr.len', 'seg.len', 'vr.len') for f in fields):
+            for _ in range(6):
+                fault_sets.append([damage.gen_fault(rng, n, fields, kinds=['length_damage'])])
         # --- seeded other kinds, sometimes two at once
         for _ in range(24):
             fs = [damage.gen_fault(rng, n, fields, kinds=['zero_block', 'overwrite', 'dup_block', 'swap_blocks', 'append', 'empty', 'foreign', 'header_damage', 'value_damage', 'shorten_record', 'shorten_record'])]
